@@ -129,12 +129,20 @@ MUTANTS = [
         ('a5/math/vec3.py', "    crossCD = [0.0, 0.0, 0.0]\n    cross(crossCD, b, c)\n    # Return dot product a · (b × c)\n    return dot(a, crossCD)\n",
          "    while not _CD_LOCK.acquire(False):\n        pass\n    try:\n        crossCD = _SHARED_CD\n        cross(crossCD, b, c)\n        return dot(a, crossCD)\n    finally:\n        _CD_LOCK.release()\n"),
     ], 600),
+    ('c16_control_lazy_import_inside_call', 'C16', 'silent', [
+        ('a5/core/_lazy_tables.py', None, "import math\nTABLE = []\nfor _i in range(40):\n    TABLE.append(math.sin(_i) * 0.0)\nZERO = sum(TABLE)\n"),
+        ('a5/core/cell.py', "    if resolution == -1:\n        return WORLD_CELL\n\n    if resolution < FIRST_HILBERT_RESOLUTION:\n",
+         "    if resolution == -1:\n        return WORLD_CELL\n    from . import _lazy_tables          # imported on first use\n    assert _lazy_tables.ZERO == 0.0\n\n    if resolution < FIRST_HILBERT_RESOLUTION:\n"),
+    ], 600),
 ]
 
 
 def apply(root, edits):
     for rel, old, new in edits:
         p = os.path.join(root, rel)
+        if old is None:                  # create a new file
+            open(p, 'w').write(new)
+            continue
         s = open(p).read()
         if old not in s:
             return 'pattern not found in %s' % rel
